@@ -121,7 +121,11 @@ fn oracle(run: &Run) -> Vec<String> {
             Closer::Stop(r) => reasons.push(format!("{:?}", r.map(|s| s.to_string()))),
             Closer::Drain => reasons.push(format!("{:?}", Some("Drained".to_string()))),
             Closer::None | Closer::Abort(_) => reasons.push(format!("{:?}", Some("end-of-scenario".to_string()))),
-            Closer::Kill => {}
+            Closer::Kill | Closer::TwoKillers => {}
+            Closer::TwoStoppers => {
+                reasons.push(format!("{:?}", Some("first".to_string())));
+                reasons.push(format!("{:?}", Some("second".to_string())));
+            }
             Closer::StopDrainKill => {
                 reasons.push(format!("{:?}", Some("raced".to_string())));
                 reasons.push(format!("{:?}", Some("Drained".to_string())));
